@@ -20,6 +20,7 @@ EXPLANATION = (
     "its Gaussian pulse pair (sps//2, sps//2-1) and lies inside the NRZ slot. C03.6: for a field without a noise component, in both polarisation layouts, PD hands electrical_signal a signal current and a noise current with one entry per sample each (coarse shape typing scalar / N / 2xN of the value forms). C03.7: the eye the OOK receiver measures is folded from a record cut to whole two-slot periods (any slot count, odd included, is accepted). C03.8: the PPM soft decision sums every sample of a slot and takes the argmax per symbol (for every sps). The transfer functions of the blocks themselves are decided "
     "under C05, C06, C09, C11, C12, C17. NOT decided: that the composed chain recovers every bit pattern for every configuration.")
 EXPLANATION += (" Added after the audit wave: C03.1 the counter converts each of Tx, Rx on its own (four raw/sequence combinations); C03.9 the dispersive element is C07's all-pass with or without retH; C03.10 GET_EYE splits the ON/OFF populations at a value computed from the level estimates, never at an element picked out of the record (strict comparisons with a sample value can empty a population: nan threshold); C03.11 on a time axis folding k >= 2 slots per trace the populations are not drawn from one sub-slot window of the raw axis (every second slot only: data whose ON slots share a parity leave mu1 = nan).")
+EXPLANATION += (" Second audit wave: C03.12 (= C17.10) the instants handed to GET_EYE's crossing clustering carry a reduction of the time axis modulo the slot, so that transitions of one parity (PPM slots 1001 1001, 0011...) still fill both crossing groups.")
 TRUSTED = ["the per-block properties C05, C06, C09, C11, C12, C17", "numpy comparison/sum semantics"]
 LEVEL_TEXT = ("Partial, structural: decides the wiring of ook.DSP / ppm.DSP (sampling instant, comparator, threshold source, decoder order) and the "
               "error-counter formula - necessary conditions of C03. The end-to-end claim over all bit patterns and configurations is not decided by "
@@ -290,6 +291,8 @@ def run(ctx):
     rule_boundary(ctx, "C03.10")
     from .c17 import rule_every_slot
     rule_every_slot(ctx, "C03.11")
+    from .c17 import rule_periodic_crossings
+    rule_periodic_crossings(ctx, "C03.12")
     # every stage of the link reads the sampling grid in force when it is CALLED (a default or cache bound earlier describes another grid)
     check_late_binding(ctx, "C03.5", ["ook.DSP", "ppm.DSP", "ook.BER_analizer", "ppm.BER_analizer", "devices.DAC", "devices.MZM", "devices.PD", "devices.SAMPLER", "devices.LPF",
                                       "devices.GET_EYE", "devices.DM", "ppm.PPM_ENCODER", "ppm.PPM_DECODER", "ppm.HDD", "ppm.SDD", "ppm.THRESHOLD_EST", "ook.THRESHOLD_EST"])
@@ -302,3 +305,4 @@ def run(ctx):
     ctx.require_min("C03.8", 2)
     ctx.require_min("C03.10", 2)
     ctx.require_min("C03.11", 2)
+    ctx.require_min("C03.12", 2)
